@@ -278,6 +278,9 @@ class FunctionDecoratorManager(DecoratorManager):
             if await dec.handle_dispatch(data) is False:
                 self.logger.debug("Trigger not active due to %s", dec)
                 return
+        # only now is this a successful trigger (e.g. @time_active's hold_off counts from it)
+        for dec in decorators:
+            dec.dispatch_accepted(data)
 
         action_ast_ctx = AstEval(
             f"{self.eval_func.global_ctx_name}.{self.eval_func.name}", self.eval_func.global_ctx
